@@ -221,7 +221,120 @@ class RoundTripBadMac(RoundTrip):
         return (x for x in RoundTrip.bounded_inputs(self, tier) if x["scenario"] == "bad-mac" and x["ms"] == 20 and x["cut"] == 0)
 
 
-CONTRACTS = [SendPacket, RoundTripWhole, RoundTripPrefix, RoundTripBadMac]
+
+# -- key re-exchange: what may go out while new keys are being negotiated (seeded change C35-3) ----------------------
+
+
+def allowed_during_kex(m):
+    """RFC 4253 section 7.1 (and RFC 8308 for EXT_INFO): between KEXINIT and NEWKEYS only transport generic messages
+    1..19 except SERVICE_REQUEST (5), SERVICE_ACCEPT (6), EXT_INFO (7); negotiation messages 20..29 except KEXINIT
+    (20); and key exchange method messages 30..49 may be sent."""
+    return bor(band(m >= 1, m <= 19, m != 5, m != 6, m != 7), band(m >= 21, m <= 29), band(m >= 30, m <= 49))
+
+
+class AllowedDuringKex(Contract):
+    prop = "C35"
+    module = M
+    function = "SSHTransportBase._allowedKeyExchangeMessageType"
+    differential = False
+    inputs = dict(mtype=Int(lo=0, hi=255, small=[0, 1, 5, 7, 19, 20, 21, 29, 30, 49, 50, 94, 255]))
+
+    def setup(self, i):
+        t = mkt(self, 8, 0)
+        return dict(self=t, args=[i.mtype], objs=dict(t=t))
+
+    def bounded_inputs(self, tier):
+        for m in range(0, 256):
+            yield dict(mtype=m)
+
+    raises = ()
+    ensures = dict(exactly_the_rfc4253_7_1_messages=lambda S: veq(S.result, allowed_during_kex(S.i.mtype)))
+    canaries = [("return 30 <= messageType <= 49", "return messageType >= 30", "exactly_the_rfc4253_7_1_messages")]
+
+
+class SendPacketDuringKex(Contract):
+    """while a key exchange is in progress a message that is not part of it is queued, in order, and nothing is written
+    (it would be protected with the old keys after the peer has switched, or overtake NEWKEYS)"""
+    prop = "C35"
+    module = M
+    function = "SSHTransportBase.sendPacket"
+    differential = False
+    calls = enc_calls()
+    inputs = dict(state=OneOf("requested", "progressing"), queued=OneOf(0, 1),
+                  mtype=Int(lo=0, hi=255, small=[1, 20, 21, 50, 94]), payload=Bytes(alphabet=b"p\x00", small_len=2),
+                  mac=Bytes(alphabet=b"m", small_len=0))
+    trusted = SendPacket.trusted
+
+    def requires(self, i):
+        return band(L(i.payload) < 2 ** 20, L(i.mac) == 0)
+
+    def setup(self, i):
+        T = transport.SSHTransportBase
+        st = T._KEY_EXCHANGE_REQUESTED if i.state == "requested" else T._KEY_EXCHANGE_PROGRESSING
+        t = mkt(self, 8, 0, _keyExchangeState=st, _blockedByKeyExchange=[(94, b"earlier")][: i.queued])
+        return dict(self=t, args=[i.mtype, i.payload], objs=dict(t=t), ghost=dict(mac=i.mac))
+
+    raises = ()
+
+    def _queued(S):
+        w = [e for e in S.trace if e.name == "transport.write"]
+        q_old, q_new = list(S.old.t._blockedByKeyExchange), list(S.new.t._blockedByKeyExchange)
+        ok = allowed_during_kex(S.i.mtype)
+        if w:
+            return band(ok, len(w) == 1, layout(w[0].args[0], 8, 0, S.i.mtype, S.i.payload, S.i.mac),
+                        len(q_new) == len(q_old), S.new.t.outgoingPacketSequence == 4)
+        if len(q_new) != len(q_old) + 1:
+            return False
+        return band(bnot(ok), q_new[:-1] == q_old, q_new[-1][0] == S.i.mtype, veq(q_new[-1][1], S.i.payload),
+                    S.new.t.outgoingPacketSequence == 3)
+
+    ensures = dict(not_part_of_the_exchange_is_queued_in_order_and_not_written=_queued)
+    canaries = [("if not self._allowedKeyExchangeMessageType(messageType):", "if False:",
+                 "not_part_of_the_exchange_is_queued_in_order_and_not_written")]
+
+
+class NewKeysFlush(Contract):
+    """NEWKEYS received: the new keys are in use and the exchange is over *before* the queued messages go out, each
+    exactly once, in the order they were queued"""
+    prop = "C35"
+    module = M
+    function = "SSHTransportBase._newKeys"
+    differential = False
+    calls = dict(enc_calls(), **{"SSHTransportBase.sendPacket": callout("sendPacket")})
+    inputs = dict(n=OneOf(0, 1, 2, 3), m1=Int(lo=50, hi=255, small=[94]), m2=Int(lo=50, hi=255, small=[95]),
+                  p1=Bytes(alphabet=b"p", small_len=1), p2=Bytes(alphabet=b"q", small_len=1))
+
+    def setup(self, i):
+        T = transport.SSHTransportBase
+        nxt = self.opaque("nextenc", encBlockSize=8, decBlockSize=8, verifyDigestSize=0)
+        msgs = [(i.m1, i.p1), (i.m2, i.p2), (i.m1, i.p2)][: i.n]
+        t = mkt(self, 8, 0, _keyExchangeState=T._KEY_EXCHANGE_PROGRESSING, _blockedByKeyExchange=list(msgs), nextEncryptions=nxt,
+                outgoingCompressionType=b"none", incomingCompressionType=b"none", _log=self.opaque("log"))
+        return dict(self=t, args=[], objs=dict(t=t), ghost=dict(msgs=msgs, nxt=nxt))
+
+    def bounded_inputs(self, tier):
+        return iter(())  # sendPacket is a call-out here; the real flush is exercised by the bounded rekey histories
+
+    raises = ()
+
+    def _flush(S):
+        sent = [e for e in S.trace if e.name == "sendPacket"]
+        msgs = S.ghost["msgs"]
+        T = transport.SSHTransportBase
+        if len(sent) != len(msgs):
+            return False
+        return band(S.new.t._keyExchangeState == T._KEY_EXCHANGE_NONE, S.new.t._blockedByKeyExchange is None,
+                    S.new.t.currentEncryptions is S.ghost["nxt"],
+                    *[band(e.args[0] == m, veq(e.args[1], p), e.snap.t.currentEncryptions is S.ghost["nxt"],
+                           e.snap.t._keyExchangeState == T._KEY_EXCHANGE_NONE) for e, (m, p) in zip(sent, msgs)])
+
+    ensures = dict(queued_messages_flushed_in_order_under_the_new_keys=_flush)
+    canaries = [("        for messageType, payload in messages:\n            self.sendPacket(messageType, payload)",
+                 "        for messageType, payload in reversed(messages):\n            self.sendPacket(messageType, payload)",
+                 "queued_messages_flushed_in_order_under_the_new_keys")]
+
+
+CONTRACTS = [SendPacket, RoundTripWhole, RoundTripPrefix, RoundTripBadMac, AllowedDuringKex, SendPacketDuringKex, NewKeysFlush]
 BOUNDED = bounded("C35")
 NOTES = dict(
     explanation="Packet layout, padding arithmetic and the send/receive round trip proved under assumed cipher and MAC "
@@ -237,7 +350,10 @@ MANIFEST = dict(
          "return exactly the sent payload and consume exactly the packet, to ask for more data on any proper prefix "
          "without consuming or disconnecting, and to disconnect with MAC_ERROR without delivering when the MAC differs. "
          "The ciphers and MACs themselves are assumed through contracts (inverse, length preserving; MAC a function of "
-         "sequence number and packet).",
+         "sequence number and packet). Key re-exchange: _allowedKeyExchangeMessageType is proved equal to RFC 4253 7.1 "
+         "(+ RFC 8308) for every message type; sendPacket during an exchange queues every other message in order, writes "
+         "nothing and leaves the sequence number alone; _newKeys switches to the new keys and to state NONE before it "
+         "flushes the queue, each message once, in order.",
     note="Trusted: pyvc, SMT solvers, struct axiom, ASSUMED contracts of currentEncryptions (identity stands in for a "
          "length-preserving bijection; MAC modelled functionally), secureRandom returns n bytes. The real cipher / MAC / "
          "compression matrix is not covered.",
